@@ -38,6 +38,10 @@ def check(repo, col, tier):
     c08._time(repo, col, "R-C07-time")
     col.rule("R-C07-scan", "the checkpointed (nested) scan threads the carry through every block", 6)
     c06._scan(repo, col, "R-C07-scan")
+    # a run continued in segments feeds each segment's inputs with data_stimulate / data_clamp: values and row indices of the
+    # inputs must be merged in the same order (shared with C05/C08/C11/C19)
+    col.rule("R-C07-pairing", "inputs and their row indices are merged in the same order", 3)
+    c08._pairing(repo, col, "R-C07-pairing")
 
 
 def _alts(t: T):
@@ -48,8 +52,7 @@ def _alts(t: T):
     return [("", t)]
 
 
-def _stepcount(repo, col, fi, ex):
-    R = "R-C07-stepcount"
+def _stepcount(repo, col, fi, ex, R="R-C07-stepcount"):
     call = next((c for c in ex.calls if isinstance(c.func, ast.Name) and c.func.id == "nested_checkpoint_scan"), None)
     if call is None:
         raise AnalysisError("integrate no longer calls nested_checkpoint_scan")
@@ -177,8 +180,10 @@ def _single(repo, col, fi, ex):
               f"step_fn is called with {[unparse(x) for x in sc2.args]} (roles recognised: {roles}): the scan must step with the carry, the "
               f"parameters returned by init_fn, the inputs of this step, the input rows and the requested delta_t", node=sc2)
     rb = body.returns[0] if body.returns else None
-    ok = rb is not None and rb.op == "tuple" and rb.args[0].op == "callv" and \
-        T.find(idx.inline(repo, body.fi, rb.args[1]), lambda x: x.key() == rb.args[0].key()) is not None
+    ok = False
+    if rb is not None and rb.op == "tuple" and rb.args[0].op == "callv":
+        stepped = idx.inline(repo, body.fi, rb.args[0])  # both sides in the same normal form
+        ok = T.find(idx.inline(repo, body.fi, rb.args[1]), lambda x: x.key() == stepped.key()) is not None
     col.check(ok, R, body.fi, "scan body returns the stepped state and records from it", "(state, recs(state))",
               f"returns {rb.short(120) if rb else None}", node=body.fi.node)
     # scan is seeded with the states that the initial recording was taken from, and its carry is returned
